@@ -608,44 +608,26 @@ Proof.
   destruct (bytes_eqb k_timestamp k); reflexivity.
 Qed.
 
-(* guarded content theorem: if no earlier line of the stream carried structured metadata,
-   line number |pre| is stored exactly as a fresh map per line would store it *)
-Theorem loki_fields_guarded labels pre l post :
-  Forall (fun l0 => ll_meta l0 = []) pre ->
-  exists e, nth_error (loki_build labels (pre ++ l :: post)) (List.length pre) = Some e /\
-            ev_equiv e (loki_line_spec labels l).
+(* every line of every stream is stored as its own labels + time + text + metadata say *)
+Lemma loki_build_nth labels pre l post :
+  nth_error (loki_build labels (pre ++ l :: post)) (List.length pre) = Some (loki_line_spec labels l).
 Proof.
-  intros H. unfold loki_build. rewrite loki_stream_nth. eexists. split; [reflexivity|].
-  apply loki_no_meta_prefix, H.
+  unfold loki_build. rewrite map_app. cbn [map].
+  rewrite nth_error_app2 by (rewrite map_length; lia). rewrite map_length, Nat.sub_diag. reflexivity.
 Qed.
 
-(* the defect, for every stream: a metadata pair of line i that line i+1 does not set
-   itself is stored with line i+1 *)
-Theorem loki_metadata_carried labels pre l1 l2 post k v :
-  lookup k (map_set_all (ll_meta l1) []) = Some v ->
-  lookup k (map_set_all (ll_meta l2) []) = None ->
-  bytes_eqb k_line k = false -> bytes_eqb k_timestamp k = false ->
-  exists e, nth_error (loki_build labels (pre ++ l1 :: l2 :: post)) (S (List.length pre)) = Some e /\
-            lookup k e = Some v.
-Proof.
-  intros H1 H2 Hl Ht. unfold loki_build.
-  replace (pre ++ l1 :: l2 :: post) with ((pre ++ [l1]) ++ l2 :: post) by (rewrite <- app_assoc; reflexivity).
-  replace (S (List.length pre)) with (List.length (pre ++ [l1])) by (rewrite app_length; cbn; lia).
-  rewrite loki_stream_nth. eexists. split; [reflexivity|].
-  rewrite fold_left_app. cbn [fold_left].
-  rewrite lookup_loki_apply, H2, Hl, Ht. rewrite lookup_loki_apply, H1. reflexivity.
-Qed.
+Theorem loki_fields labels pre l post :
+  nth_error (loki_build labels (pre ++ l :: post)) (List.length pre) = Some (loki_line_spec labels l).
+Proof. apply loki_build_nth. Qed.
 
 Definition loki_w1 : loki_line := {| ll_ts := s2b "1600000000123456789"; ll_line := s2b "one"; ll_meta := [(s2b "trace", SStr (s2b "T1"))] |}.
 Definition loki_w2 : loki_line := {| ll_ts := s2b "1600000001123456789"; ll_line := s2b "two"; ll_meta := [] |}.
 
-Theorem loki_fields_refuted : exists labels l1 l2 e k,
-  nth_error (loki_build labels [l1; l2]) 1 = Some e /\
-  lookup k e <> lookup k (loki_line_spec labels l2).
-Proof.
-  exists [(s2b "job", SStr (s2b "j"))], loki_w1, loki_w2.
-  eexists. exists (s2b "trace"). split; [vm_compute; reflexivity|]. vm_compute. congruence.
-Qed.
+(* regression witness of the repaired defect: line two is stored without the metadata of line one *)
+Lemma loki_fixed_no_carry :
+  exists e, nth_error (loki_build [(s2b "job", SStr (s2b "j"))] [loki_w1; loki_w2]) 1 = Some e /\
+            lookup (s2b "trace") e = None /\ lookup (s2b "job") e = Some (SStr (s2b "j")).
+Proof. eexists. split; [vm_compute; reflexivity|]. split; vm_compute; reflexivity. Qed.
 
 (* time of a line: its own timestamp string, unless its metadata has a "timestamp" key *)
 Theorem loki_time_guarded x labels pre l post index dec now0 tsNow clock u v :
@@ -655,14 +637,51 @@ Theorem loki_time_guarded x labels pre l post index dec now0 tsNow clock u v :
   exists e, nth_error (loki_build labels (pre ++ l :: post)) (List.length pre) = Some e /\
             final_ts x e index dec now0 tsNow clock = instant_ms u v.
 Proof.
-  intros Hi Hm Hp Hr. unfold loki_build. rewrite loki_stream_nth. eexists. split; [reflexivity|].
+  intros Hi Hm Hp Hr. rewrite loki_build_nth. eexists. split; [reflexivity|].
   destruct (in_range_str_ok u v Hr) as [E Hnz].
   rewrite (final_ts_str x _ index dec now0 tsNow clock (ll_ts l) v).
   - exact E.
-  - rewrite (index_ts_key_plain index Hi). rewrite lookup_loki_apply, Hm.
+  - rewrite (index_ts_key_plain index Hi). unfold loki_line_spec. rewrite lookup_loki_apply, Hm.
     change (bytes_eqb k_line k_timestamp) with false. cbn iota. rewrite bytes_eqb_refl. reflexivity.
   - exact Hp.
   - rewrite E. exact Hnz.
+Qed.
+
+(* ---- PRE-FIX documentation: [loki_build_prefix], one map per stream ---- *)
+(* guarded: if no earlier line of the stream carried structured metadata, line number |pre|
+   was stored as a fresh map per line would store it *)
+Theorem prefix_loki_fields_guarded labels pre l post :
+  Forall (fun l0 => ll_meta l0 = []) pre ->
+  exists e, nth_error (loki_build_prefix labels (pre ++ l :: post)) (List.length pre) = Some e /\
+            ev_equiv e (loki_line_spec labels l).
+Proof.
+  intros H. unfold loki_build_prefix. rewrite loki_stream_nth. eexists. split; [reflexivity|].
+  apply loki_no_meta_prefix, H.
+Qed.
+
+(* the defect, for every stream: a metadata pair of line i that line i+1 does not set
+   itself was stored with line i+1 *)
+Theorem prefix_loki_metadata_carried labels pre l1 l2 post k v :
+  lookup k (map_set_all (ll_meta l1) []) = Some v ->
+  lookup k (map_set_all (ll_meta l2) []) = None ->
+  bytes_eqb k_line k = false -> bytes_eqb k_timestamp k = false ->
+  exists e, nth_error (loki_build_prefix labels (pre ++ l1 :: l2 :: post)) (S (List.length pre)) = Some e /\
+            lookup k e = Some v.
+Proof.
+  intros H1 H2 Hl Ht. unfold loki_build_prefix.
+  replace (pre ++ l1 :: l2 :: post) with ((pre ++ [l1]) ++ l2 :: post) by (rewrite <- app_assoc; reflexivity).
+  replace (S (List.length pre)) with (List.length (pre ++ [l1])) by (rewrite app_length; cbn; lia).
+  rewrite loki_stream_nth. eexists. split; [reflexivity|].
+  rewrite fold_left_app. cbn [fold_left].
+  rewrite lookup_loki_apply, H2, Hl, Ht. rewrite lookup_loki_apply, H1. reflexivity.
+Qed.
+
+Theorem prefix_loki_fields_refuted : exists labels l1 l2 e k,
+  nth_error (loki_build_prefix labels [l1; l2]) 1 = Some e /\
+  lookup k e <> lookup k (loki_line_spec labels l2).
+Proof.
+  exists [(s2b "job", SStr (s2b "j"))], loki_w1, loki_w2.
+  eexists. exists (s2b "trace"). split; [vm_compute; reflexivity|]. vm_compute. congruence.
 Qed.
 
 (* ================= 7. OTLP logs ================= *)
@@ -961,24 +980,25 @@ Proof.
   apply andb_true_iff in H as [H1 H2]. rewrite H1, IH by exact H2. reflexivity.
 Qed.
 
-Definition dy_exact_uint (d : dyad) : bool := (dy_den d =? 0) && (0 <=? dy_num d)%Z && (dy_num d <? 9007199254740992)%Z.
+(* the value a number data point carries *)
+Definition mnum_dyad (v : mnum) : dyad := match v with MDouble d => d | MInt z => dy_int z end.
+(* every double; integers that float64 holds exactly *)
+Definition mnum_exact (v : mnum) : bool :=
+  match v with MDouble _ => true | MInt z => (Z.abs z <? 9007199254740992)%Z end.
 
-Lemma otlp_metric_val_exact d : dy_exact_uint d = true -> otlp_metric_val (MDouble d) = d.
+Lemma otlp_metric_val_exact v : mnum_exact v = true -> otlp_metric_val v = mnum_dyad v.
 Proof.
-  destruct d as [n e]. unfold dy_exact_uint. cbn. intros H.
-  apply andb_true_iff in H as [H H3]. apply andb_true_iff in H as [H1 H2].
-  apply N.eqb_eq in H1. subst e. unfold otlp_metric_val, dy_trunc, dy_int. cbn.
-  rewrite Z.quot_1_r. rewrite f64_round_small by lia. reflexivity.
+  destruct v as [d|z]; cbn; intros H; [reflexivity|]. rewrite f64_round_small by lia. reflexivity.
 Qed.
 
-(* gauge/sum point with word-only names, string attributes, a nanosecond time and a
-   whole non-negative double value below 2^53 *)
-Theorem otlp_metric_point (name : bytes) (tags : list tag) n d :
+(* gauge/sum point with word-only names, string attributes and a nanosecond time: the
+   stored point has the value the data point carries (as_double or as_int) *)
+Theorem otlp_metric_point (name : bytes) (tags : list tag) n v :
   name <> [] -> forallb is_word name = true ->
   NANO_T <= n -> n < 9223372036854775808 -> n / 1000000000 < 4294967296 ->
-  dy_exact_uint d = true ->
-  exists tg, otlp_metric_build name (map (fun kv => (fst kv, SStr (snd kv))) tags) n (MDouble d) =
-    Some {| d_name := name; d_tags := tg; d_ts := n / 1000000000; d_val := d |}.
+  mnum_exact v = true ->
+  exists tg, otlp_metric_build name (map (fun kv => (fst kv, SStr (snd kv))) tags) n v =
+    Some {| d_name := name; d_tags := tg; d_ts := n / 1000000000; d_val := mnum_dyad v |}.
 Proof.
   intros Hn Hw H1 H2 H3 Hd. unfold otlp_metric_build, otlp_metric_ts.
   rewrite sanitize_word by exact Hw. rewrite prom_nanos by assumption.
@@ -986,9 +1006,26 @@ Proof.
   unfold NANO_T in H1. destruct (N.ltb_spec 0 (n / 1000000000)); [|lia]. eexists. reflexivity.
 Qed.
 
-Theorem otlp_metric_value_refuted :
-  otlp_metric_val (MDouble {| dy_num := 15; dy_den := 1 |}) <> {| dy_num := 15; dy_den := 1 |} /\
-  otlp_metric_val (MInt 42) <> dy_int 42.
+(* regression witnesses of the repaired defects *)
+Lemma otlp_metric_fixed_values :
+  otlp_metric_val (MDouble {| dy_num := 15; dy_den := 1 |}) = {| dy_num := 15; dy_den := 1 |} /\
+  otlp_metric_val (MInt 42) = dy_int 42 /\ otlp_metric_val (MInt (-7)) = dy_int (-7).
+Proof. repeat split; reflexivity. Qed.
+
+(* ---- PRE-FIX documentation: [otlp_metric_val_prefix], the value through uint64 ---- *)
+Definition dy_exact_uint (d : dyad) : bool := (dy_den d =? 0) && (0 <=? dy_num d)%Z && (dy_num d <? 9007199254740992)%Z.
+
+Lemma prefix_otlp_metric_val_guarded d : dy_exact_uint d = true -> otlp_metric_val_prefix (MDouble d) = d.
+Proof.
+  destruct d as [n e]. unfold dy_exact_uint. cbn. intros H.
+  apply andb_true_iff in H as [H H3]. apply andb_true_iff in H as [H1 H2].
+  apply N.eqb_eq in H1. subst e. unfold otlp_metric_val_prefix, dy_trunc, dy_int. cbn.
+  rewrite Z.quot_1_r. rewrite f64_round_small by lia. reflexivity.
+Qed.
+
+Theorem prefix_otlp_metric_value_refuted :
+  otlp_metric_val_prefix (MDouble {| dy_num := 15; dy_den := 1 |}) <> {| dy_num := 15; dy_den := 1 |} /\
+  otlp_metric_val_prefix (MInt 42) <> dy_int 42.
 Proof. split; vm_compute; congruence. Qed.
 
 Theorem otlp_metric_key_collision : exists k1 k2, k1 <> k2 /\ sanitize k1 = sanitize k2.
@@ -1005,7 +1042,7 @@ Example guards_satisfiable :
   exact53 (SInt 42) = true /\
   otlp_carried_ms {| o_time := 0; o_observed := 0; o_sevnum := 0; o_sevtext := []; o_body := SStr [];
                      o_attrs := []; o_dropped := 0; o_flags := 0; o_trace := []; o_span := [] |} = 0 /\
-  dy_exact_uint (dy_int 7) = true.
+  mnum_exact (MInt 42) = true /\ dy_exact_uint (dy_int 7) = true.
 Proof. repeat split; reflexivity. Qed.
 
 (* ================= 10. packaged statements for props/C16.v ================= *)
